@@ -142,6 +142,25 @@ Theorem C15_update_forgets_history : forall (K : FOps) (nrm : list K -> K) (is0 
 Proof. exact update_forgets_history. Qed.
 Print Assumptions C15_update_forgets_history.
 
+(* --- in-place writes into field.array: lengths are never stale --- *)
+Theorem C15_no_stale_lengths : forall (K : FOps) (nrm : list K -> K) (is0 close0 : K -> bool)
+  (f f' : field K) os g,
+  run_ops nrm is0 close0 f (os ++ [OWrite g]) = OK f' ->
+  exists f1, run_ops nrm is0 close0 f os = OK f1 /\ f_arr f' = g (f_arr f1) /\
+    f_arr (norm_field nrm f') = map (fun v => [nrm v]) (g (f_arr f1)) /\
+    f_arr (orientation nrm close0 f') = map (fun v => unit_cell close0 (nrm v) v) (g (f_arr f1)) /\
+    f_valid f' = f_valid f1.
+Proof. exact no_stale_lengths. Qed.
+Print Assumptions C15_no_stale_lengths.
+
+Theorem C15_set_norm_after_write : forall (K : FOps) (nrm : list K -> K) (is0 close0 : K -> bool)
+  (f f' : field K) os g s,
+  run_ops nrm is0 close0 f (os ++ [OWrite g; OSetNorm s]) = OK f' ->
+  exists f1 ts, run_ops nrm is0 close0 f os = OK f1 /\ spec_values (f_mesh f1) s = OK ts /\
+    f_arr f' = map2 (fun v t => set_cell is0 (nrm v) t v) (g (f_arr f1)) ts.
+Proof. exact set_norm_after_write. Qed.
+Print Assumptions C15_set_norm_after_write.
+
 (* --- constructor order: values, then norm, then validity --- *)
 Theorem C15_constructor_order : forall (K : FOps) (nrm : list K -> K) (is0 close0 : K -> bool) m nvdim u a ns vs,
   nvdim <> 0%nat ->
